@@ -18,7 +18,7 @@ import subprocess
 import sys
 from fractions import Fraction
 
-sys.path.insert(0, '/repo')
+sys.path.insert(0, os.environ.get('RSOME_REPO', '/repo'))
 import numpy as np                       # noqa: E402
 import rsome as rso                      # noqa: E402
 from rsome import dro, E                 # noqa: E402
